@@ -155,7 +155,12 @@ class Sim:
         """load_paths equivalent: plus paths into their ensembles, then the minus path"""
         st, n_ens = self.st, self.n_ens
         if paths_by_slot is None:
-            paths_by_slot = [FakePath(0, (1.0,))] + [FakePath(i, staircase(n_ens, i - 1, i - 1, 1)) for i in range(1, n_ens)]
+            if getattr(self, "rich_init", False):
+                # initial paths that reach beyond their own ensemble (so that off-diagonal picks are possible at once)
+                paths_by_slot = [FakePath(0, (1.0,))] + [
+                    FakePath(i, staircase(n_ens, i - 1, self.rng.randint(i - 1, n_ens - 2), 1)) for i in range(1, n_ens)]
+            else:
+                paths_by_slot = [FakePath(0, (1.0,))] + [FakePath(i, staircase(n_ens, i - 1, i - 1, 1)) for i in range(1, n_ens)]
         order = list(range(1, n_ens)) + [0]
         for i in order:
             p = paths_by_slot[i]
@@ -198,7 +203,19 @@ class Sim:
                 rcstep = str(cur.get("cstep"))
             except Exception as e:  # noqa: BLE001
                 rfrac = "unreadable:" + type(e).__name__
-        return {"_restart_frac": rfrac, "_restart_active": ractive, "_restart_locked": rlocked, "_restart_cstep": rcstep,
+        # coherence of the cached P matrix (`_last_prob`) with a fresh computation for the current state/locks
+        stale = "0"
+        if st._last_prob is not None:
+            try:
+                import numpy as _np
+                fresh = st.inf_retis(abs(st.state), st._locks)
+                if fresh.shape != st._last_prob.shape or not _np.allclose(_np.asarray(fresh, dtype=float),
+                                                                        _np.asarray(st._last_prob, dtype=float),
+                                                                        rtol=0, atol=1e-9):
+                    stale = "1"
+            except Exception as e:  # noqa: BLE001
+                stale = "err:" + type(e).__name__
+        return {"_prob_stale": stale, "_restart_frac": rfrac, "_restart_active": ractive, "_restart_locked": rlocked, "_restart_cstep": rcstep,
                 "W": W, "trajs": trajs, "locks": locks, "locked": locked, "locked0": locked0,
                 "toinit": str(st.toinitiate), "cworker": str(st.cworker if st.cworker is not None else 0), "cstep": str(st.cstep),
                 "trajnum": str(st.config["current"]["traj_num"]), "frac": frac, "rows": self.rows_real(),
@@ -327,7 +344,7 @@ def read_image(tmpdir):
 
 
 def run_history(ctx, n_ens, workers, steps, seed=0, wf=False, eng_types=1, acc_p=0.7, dump_every=1,
-                chooser=None, rng=None, restarts=()):
+                chooser=None, rng=None, restarts=(), rich_init=False):
     """`restarts`: step counts after which the process is "killed" (right after the restart file of that
     step was written) and a new REPEX_state is built from the restart file, as setup_config +
     setup_internal do.  Returns the LAST Sim; earlier ones are in `.previous` (each with lines/real)."""
@@ -336,7 +353,8 @@ def run_history(ctx, n_ens, workers, steps, seed=0, wf=False, eng_types=1, acc_p
     image = None
     weights = None
     for stop in list(restarts) + [None]:
-        sim = _run_segment(ctx, n_ens, workers, steps, seed, wf, eng_types, acc_p, chooser, rng, stop, image, weights)
+        sim = _run_segment(ctx, n_ens, workers, steps, seed, wf, eng_types, acc_p, chooser, rng, stop, image, weights,
+                           rich_init)
         sims.append(sim)
         if stop is None or sim.error is not None or sim.image is None:
             break
@@ -346,12 +364,14 @@ def run_history(ctx, n_ens, workers, steps, seed=0, wf=False, eng_types=1, acc_p
     return last
 
 
-def _run_segment(ctx, n_ens, workers, steps, seed, wf, eng_types, acc_p, chooser, rng, stop_after, image, weights):
+def _run_segment(ctx, n_ens, workers, steps, seed, wf, eng_types, acc_p, chooser, rng, stop_after, image, weights,
+                 rich_init=False):
     """One scheduler-shaped history.  Returns the Sim (closed) with lines/real/kinds filled and
     `snap`: list of (real dump dict, in-flight job summaries) after every op."""
     sim = Sim(ctx, n_ens, workers, steps, seed=seed, wf=wf, eng_types=eng_types, rng=rng,
               cstep=0 if image is None else image["cstep"], image=image)
     sim.image = None
+    sim.rich_init = rich_init
     snaps = []
     inflight = []
     error = None
